@@ -5,6 +5,7 @@ import RbV.Ref.PoaAccept
 import RbV.Model.Poa
 import RbV.Model.PoaBanded
 import RbV.Model.PoaCustom
+import RbV.Model.PoaI32
 /-! Driver for property C16 (partial-order alignment).
 
 `c16 <gap>:<xp>:<xs>:<yp>:<ys> <alphabet> <table> <reference> <step>/… => g:<labels>:<edges> c:<cons> | [b:<sc>] s:<sc> o:<ops> [g:… c:…] | …`
@@ -220,6 +221,11 @@ def stepCheck (sc : Sc) (xp xs yp ys : Int) (clipsDefault uniq : Bool) (ref : Li
       else if sp.mode = "b" then
         let st := if Model.bandedScore sc xp yp st.cur.labels st.cur.wes sp.query sp.bw ≠ s then st.tag "drift-banded-score"
           else st.tag "banded-model"
+        -- checked-`i32` mirror of `global_banded` (`poa_banded_i32_no_overflow`)
+        let st := match Model.bandedScoreC sc xp yp st.cur.labels st.cur.wes sp.query sp.bw with
+          | some b' => if b' = s then st.tag "i32-banded=impl" else st.tag "drift-i32-banded"
+          | none => st.tag "drift-i32-overflow"
+        let st := if Model.poaEnvB sc xp xs yp ys st.cur.labels sp.query then st.tag "poa-env" else st.tag "outside-poa-env"
         let st := if (Model.bandedTable sc xp yp st.cur.labels st.cur.wes sp.query sp.bw).ops st.cur.labels.length ≠ ops
           then st.tag "drift-banded-ops" else st
         if clipsDefault && sp.bw ≥ sp.query.length then
@@ -237,6 +243,18 @@ def stepCheck (sc : Sc) (xp xs yp ys : Int) (clipsDefault uniq : Bool) (ref : Li
         else (xp, xs, yp, ys)
       let (cs, cops) := Model.customAlign sc clips.1 clips.2.1 clips.2.2.1 clips.2.2.2 st.cur.labels st.cur.wes sp.query
       let st := if cs ≠ s then st.tag "drift-custom-score" else st.tag "custom-model"
+      -- the checked-`i32` mirror (`Model/PoaI32.lean`, theorem `poa_i32_no_overflow`) against the implementation, and
+      -- whether the step lies in the envelope `PoaEnv` of the theorem
+      let st := match Model.customAlignC sc clips.1 clips.2.1 clips.2.2.1 clips.2.2.2 st.cur.labels st.cur.wes sp.query with
+        | some (cs', cops') => if cs' = s && cops' == ops then st.tag "i32-custom=impl" else st.tag "drift-i32-custom"
+        | none => st.tag "drift-i32-overflow"
+      let st := if Model.poaEnvB sc clips.1 clips.2.1 clips.2.2.1 clips.2.2.2 st.cur.labels sp.query then st.tag "poa-env"
+        else st.tag "outside-poa-env"
+      -- how much of the envelope of the tie, (m + 2n + 1)·B < −MIN_SCORE, the step uses
+      let pb := Model.poaBound sc st.cur.labels sp.query
+      let used := ((st.cur.labels.length : Int) + 2 * sp.query.length + 1) * pb
+      let st := if pb > 1000 then st.tag "bigscores" else st
+      let st := if 2 * used ≥ -minScore then st.tag "env-upper-half" else st
       if cops ≠ ops then st.tag "drift-custom-ops" else st
     let st := if hasClip ops then st.tag "clip-ops" else st
     let st := if sp.mode = "b" && !fullBand sp m then st.tag "narrow-band" else st
